@@ -13,7 +13,8 @@ REG = dict(category="model_checking",
     "subset size, iteration limits 0/1/2/5 and steering seeds; (b) generates call records: parser strings for count fields 0..9, 255..264, 65535 with length "
     "offsets, every padding-bit pattern for 12 (thorough 35) counts, initialize for n in 1..6, 200, 255, 256, 257 (thorough also 7, 8, 128; every match set and size for n <= 4, thorough 6), "
     "honest proofs for n in 1..6, 255, 256 with predicted bytes, key edge values 0 / n-1 / n / n+1 / 2^256-1, refusals, all single-bit flips of one proof, scalar "
-    "substitutions, s+n re-encodings from a spec-side prover with chosen small scalars, tag-list edits, empty selection incl. the empty-ring forgery e0 = SHA256(msg), selected input = output; all replayed on the "
+    "substitutions, s+n re-encodings from a spec-side prover with chosen small scalars, tag-list edits, empty selection incl. the empty-ring forgery e0 = SHA256(msg), selected input = output "
+    "incl. the public-data forgeries for a ring containing the infinity key (every n <= 3, selected set and position); all replayed on the "
     "real API (parser records also on the sanitizer build); (c) validates driver traces (random asset lists through generator_generate_blinded, initialize, generate, "
     "verify with mutations).",
     note="Trusted: TLC, overrides, harness. Ephemeral tags in generated records are points with known discrete logarithms (the code cannot tell); real NUMS generators "
